@@ -83,9 +83,43 @@ def verify(src, sid):
     return 0 if ok else 1
 
 
+def reverify(sid, patch=None, note=None):
+    """Re-confirms an archived entry against the current /repo (after fix: commits moved the base). With `patch`, that
+    file replaces the archived patch.diff if it confirms (a rebased version of the same change)."""
+    dst = os.path.join(SEEDED, sid)
+    meta = json.load(open(os.path.join(dst, "meta.json")))
+    demo = os.path.join(dst, "demo_test.go.txt")
+    if not os.path.exists(demo):
+        print(sid, "has no demonstration (revert entries): only apply + suite are checked")
+    pf = patch or os.path.join(dst, "patch.diff")
+    d = worktree("reverify-" + sid)
+    steps = {}
+    try:
+        rc, out = sh(["git", "apply", pf], cwd=d)
+        steps["patch_applies"] = rc == 0
+        rc, out = sh("go build ./... && go test -vet=off -count=1 .", cwd=d)
+        steps["patched_suite_passes"] = rc == 0
+        if os.path.exists(demo):
+            shutil.copy(demo, os.path.join(d, "zz_seeded_demo_test.go"))
+            rc, out = sh(meta.get("demo_cmd", "go test -vet=off -count=1 -run TestSeededDemo ."), cwd=d)
+            steps["patched_demo_fails"] = rc != 0
+    finally:
+        drop(d)
+    ok = all(steps.values())
+    if ok and patch:
+        shutil.copy(patch, os.path.join(dst, "patch.diff"))
+        meta["rebased"] = note or "patch rebased onto the current /repo (same edit; a later fix: commit had moved the lines it touches)"
+        json.dump(meta, open(os.path.join(dst, "meta.json"), "w"), indent=1)
+    print(sid, json.dumps(steps), "confirmed" if ok else "NOT CONFIRMED")
+    return 0 if ok else 1
+
+
 def detect(sid, tier="quick", props=None):
     dst = os.path.join(SEEDED, sid)
     meta = json.load(open(os.path.join(dst, "meta.json")))
+    if meta.get("obsolete"):
+        print(sid, json.dumps({"obsolete": meta["obsolete"][:80]}))
+        return 0
     props = props or meta.get("detect_with") or [meta["property"]]
     d = worktree("detect-" + sid)
     out_all = {}
@@ -123,11 +157,15 @@ def detect(sid, tier="quick", props=None):
 def table(out=None):
     rows = []
     per = {}
+    obsolete = []
     for sid in sorted(os.listdir(SEEDED)):
         mp = os.path.join(SEEDED, sid, "meta.json")
         if not os.path.exists(mp):
             continue
         meta = json.load(open(mp))
+        if meta.get("obsolete"):
+            obsolete.append("| %s | %s | %s |" % (sid, meta["property"], " ".join(meta["obsolete"].split()).replace("|", "/")))
+            continue
         dp = os.path.join(SEEDED, sid, "detect.json")
         det = json.load(open(dp)) if os.path.exists(dp) else {}
         cells = []
@@ -160,6 +198,8 @@ def table(out=None):
             f.write("Generated by `python3 tools_seeded.py table SEEDED.md` from `seeded/*/meta.json` and `seeded/*/detect.json` ")
             f.write("(each detect.json holds exit code, signatures and wall time of the last `tools_seeded.py detect` run of that entry).\n\n")
             f.write("## Per property\n\n" + "\n".join(summ) + "\n\n## Per change\n\n" + "\n".join(lines) + "\n")
+            if obsolete:
+                f.write("\n## Obsolete entries (no longer defects on the current tree)\n\n| seeded change | property | why |\n|---|---|---|\n" + "\n".join(obsolete) + "\n")
         print("%s: %d entries, %d caught" % (out, tot, totc))
         dp = os.path.join(ROOT, "DESIGN.md")
         d = open(dp).read()
@@ -180,5 +220,7 @@ if __name__ == "__main__":
     if cmd == "detect":
         tier = sys.argv[3] if len(sys.argv) > 3 else "quick"
         sys.exit(detect(sys.argv[2], tier, sys.argv[4:] or None))
+    if cmd == "reverify":
+        sys.exit(reverify(sys.argv[2], sys.argv[3] if len(sys.argv) > 3 else None))
     if cmd == "table":
         table(sys.argv[2] if len(sys.argv) > 2 else None)
